@@ -14,7 +14,7 @@ NEEDS = ("rust",)
 EXHAUSTIVE = {"quick": False, "thorough": False}
 REQUIRED_MONITORS = ["py_restored_steps", "rs_restored_steps", "py_snapshot_points", "rs_snapshot_points",
                      "save_does_not_perturb", "cross_load_py_to_rs", "cross_load_rs_to_py", "register_blob_layout",
-                     "snapshot_inside_software_interrupt"]
+                     "snapshot_inside_software_interrupt", "snapshot_inside_key_handler"]
 RULE = ("a ROM template (reset: S, U, KOL/KOH strobe, IMR, LCD on, X := RAM cursor; main loop: read KIL, store through "
         "[X++], INC, LCD data write, CALL sub, then one of {NOP, HALT, OFF, WAIT}; handler: NOP, PUSHU A, body in {empty, "
         "clear ISR, LCD command, KIL read, re-enable bit 7}, POPU A, RETI) runs on the real PCE500Emulator and the real "
@@ -177,6 +177,8 @@ def compare_restored(res, model, scen, n, placed, i, ref_before, ref_after, got,
     case = {"model": model, "scenario": {x: scen[x] for x in ("main", "body", "imr0", "timer")}, "steps": n,
             "events": {str(a): list(b) for a, b in placed.items()}, "snapshot_at": i}
     sit = situation(ref_before[i], None)
+    if ref_before[i].get("source") == "KEY" and ref_before[i]["in_irq"]:
+        res.monitor("snapshot_inside_key_handler")       # reach counter, REQUIRED as well
     if scen.get("main") == "swi" and ref_before[i].get("source") == "IR" and ref_before[i]["in_irq"]:
         # reach counter (a REQUIRED monitor): snapshot points inside a software-interrupt handler - when the scenario's
         # loop grows, runs that are too short never get there and the clause would silently stop being exercised
@@ -462,6 +464,15 @@ def run_shard(spec) -> Result:
                 # (9 instructions of reset code + 24 of the loop come before the first IR: the run must be long enough to
                 #  put snapshot points inside the IR handler and after its RETI - checked below through a counter)
                 runs.append((scen, 52 if tier == "quick" else 90, {6: ("on", 1)} if body == "reenable" else {}))
+            # keyboard interrupts: a key goes down early, the handler reads KIL (which empties the queue) and acknowledges -
+            # or does neither -, every step is a snapshot point, several of them inside the KEY handler
+            kcfgs = [(main, body, imr0) for main in ("nop", "halt") for body in ("kil", "empty", "clear_isr")
+                     for imr0 in (0x84, 0x8F)]
+            for j, (main, body, imr0) in enumerate(kcfgs):
+                if j % spec["parts"] != spec["part"]:
+                    continue
+                scen = scenario(main, body, imr0, {"enabled": True, "mti": 2, "sti": 0})
+                runs.append((scen, 64 if tier == "quick" else 110, {5: ("press", "KEY_Q"), 40: ("release", "KEY_Q")}))
         else:
             runs = [make_run(r, tier) for _ in range(total)]
         for lo in range(0, len(runs), 4):
